@@ -66,3 +66,32 @@ func loadAvoid() map[string]string {
 	_ = json.Unmarshal(b, &m)
 	return m
 }
+
+func TestWrapperStats(t *testing.T) {
+	counts := map[string]int{}
+	for _, prof := range []func(map[string]string) *Profile{ProfileMatrix, ProfileMinimal} {
+		for i := 0; i < 200; i++ {
+			id := fmt.Sprintf("m%04d", i)
+			g := rapid.Custom(func(t *rapid.T) *Schema { return Generate(t, prof(loadAvoid()), id) })
+			s := g.Example(i + 1)
+			msgs := s.AllMessages()
+			for _, m := range msgs {
+				for _, f := range m.Fields {
+					if f.Card == Map && f.Kind == KMessage {
+						if w := msgs[f.TypeRef]; w != nil && len(w.Fields) == 1 && w.Fields[0].Ann != nil && w.Fields[0].Ann.Unwrap {
+							counts["map value wrapper elem "+string(w.Fields[0].Kind)]++
+						}
+					}
+				}
+			}
+		}
+	}
+	var ks []string
+	for k := range counts {
+		ks = append(ks, k)
+	}
+	sort.Strings(ks)
+	for _, k := range ks {
+		fmt.Printf("%-50s %d\n", k, counts[k])
+	}
+}
